@@ -1,6 +1,12 @@
 /* Contracts for ikos::congruence<z_number> — properties C08 (soundness of every operation), C04 (inclusion test
- * and lattice operations agree with the concretisation), C05 (widening / narrowing, operator level). */
-#include "spec.h"
+ * and lattice operations agree with the concretisation), C05 (widening / narrowing, operator level).
+ *
+ * Reading guide.  A check without defs= runs in the UNBOUNDED mode of spec.h (proof for all magnitudes below 2^40; the
+ * linear operations need no lemma, the others name their kernel-lemma instances in post.h).  A check with
+ * defs=ZM_SMALL=..,ZBITS=3 is BOUNDED: moduli and remainders below 2^3 = 8, ghost points below 2^5 = 32 in magnitude,
+ * machine arithmetic; it is complete for that range and nothing more.  Where both exist for one function the bounded
+ * one (suffix _b) is the cross-check of the lemma set. */
+#include "post.h"
 i128 g_x, g_y;                      /* ghost concrete points: arbitrary, never assigned by the code */
 i128 g_d;                           /* ghost candidate divisor / multiple for the gcd / lcm helpers ("greatest", "least") */
 #ifndef GBITS
@@ -9,71 +15,73 @@ i128 g_d;                           /* ghost candidate divisor / multiple for th
 #define GB (((i128)1) << GBITS)
 #define GRANGE (inb(g_x, GB) && inb(g_y, GB) && inb(g_d, GB))
 #define HGHOSTS GHOSTG(i128, g_x); GHOSTG(i128, g_y); GHOSTG(i128, g_d)
-/* magnitudes accepted by the private (a, b) constructor and the gcd/lcm helpers: products of two inputs */
-#define ZB2 (ZB * ZB * 4)
-/* magnitudes accepted by the private (a, b) constructor (Shl passes a * 2^k) */
-#ifndef CTBITS
-#define CTBITS (2 * ZBITS + 2)
-#endif
-#define CTB (((i128)1) << CTBITS)
-
-#define A(p) c_a(*(p))
-#define Bq(p) c_b(*(p))
 #define CFRESH2(tag) (FRESH(tag, self, sizeof(C)) && FRESH(tag, x, sizeof(C)))
 #define RV __CPROVER_return_value
 #define OLDZ(z) ((i128)(((u128)__CPROVER_old((z).f0.a[0].f1) << 64) | (u128)__CPROVER_old((z).f0.a[0].f0)))
-
+/* mangled names used in replace= lists */
+#define N_CTOR _ZN4ikos10congruenceINS_8z_numberEEC2ES1_S1_
+#define N_GCDH _ZNK4ikos10congruenceINS_8z_numberEE10gcd_helperES1_S1_
+#define N_GCD2 _ZNK4ikos10congruenceINS_8z_numberEE3gcdES1_S1_
+#define N_GCD3 _ZNK4ikos10congruenceINS_8z_numberEE3gcdES1_S1_S1_
+#define N_LCM _ZNK4ikos10congruenceINS_8z_numberEE3lcmES1_S1_
 
 /* ================================================================ gcd / lcm helpers [private] */
-#define ZFRESH3(tag) (FRESH(tag, ret, sizeof(Z)) && FRESH(tag, x, sizeof(Z)) && FRESH(tag, y, sizeof(Z)))
 #define X zraw(*x)
 #define Y zraw(*y)
+#define W zraw(*z)
 #define R zraw(*ret)
 /* r is the greatest common divisor of x and y (r >= 0, gcd(0,0) = 0): a common divisor, and every common divisor g_d
- * divides it (g_d is an arbitrary ghost that is kept when the contract replaces a call: the caller may read the
- * clause at the g_d of its own harness) */
+ * divides it (g_d is an arbitrary ghost that is kept when the contract replaces a call: the caller reads the clause at
+ * the g_d of its own harness) */
 #define IS_GCD(r, x, y) ((r) >= 0 && dvd(r, x) && dvd(r, y) && (((r) == 0) == ((x) == 0 && (y) == 0)) \
-   && ((x) != 0 ==> (r) <= iabs(x)) && ((y) != 0 ==> (r) <= iabs(y)) && ((dvd(g_d, x) && dvd(g_d, y)) ==> dvd(g_d, r)))
-/* gcd_helper(x, y) = (y == 0) ? x : gcd_helper(y, x % y): Euclid on non-negative arguments.  The recursive call is
- * replaced by this contract (partial correctness; it terminates because 0 <= x % y < y, not machine-checked). */
-/* NOT RUN BY THE DRIVER: `goto-instrument --enforce-contract` forbids recursion in the checked function (obligation
- * no_recursive_call); the inductive check needs `--enforce-contract-rec` (a driver key such as rec=1).  Run by hand with
- * --enforce-contract-rec it holds (ZM_SMALL=16,ZBITS=3: 410 obligations, 86 s).  Until then the driver covers the body
- * through gcd2_unwound below (bounded) and uses this contract as an assumption in gcd2. */
+   && IMP((x) != 0, (r) <= iabs(x)) && IMP((y) != 0, (r) <= iabs(y)))
+#define GCD_GREATEST(r, x, y) IMP(dvd(g_d, x) && dvd(g_d, y), dvd(g_d, r))
+/* gcd_helper(x, y) = (y == 0) ? x : gcd_helper(y, x % y): Euclid on non-negative arguments.
+ * NOT RUN BY THE DRIVER (`//@manual`): goto-instrument --enforce-contract forbids recursion in the checked function
+ * (obligation no_recursive_call); the inductive check, where the recursive call is replaced by this very contract,
+ * needs --enforce-contract-rec (a driver key such as rec=1).  Run by hand that way it holds (bounded mode: 410
+ * obligations, 86 s; see the unit's README section in the final report).  Partial correctness; it terminates because
+ * 0 <= x % y < y (not machine-checked).  The driver covers the body through gcd2_unwound (bounded) and ASSUMES this
+ * contract in gcd2. */
 //@manual id=gcd_helper fn=_ZNK4ikos10congruenceINS_8z_numberEE10gcd_helperES1_S1_ props=C08 defs=ZM_SMALL=16,ZBITS=3 rec=1
 void _ZNK4ikos10congruenceINS_8z_numberEE10gcd_helperES1_S1_(Z *ret, C *self, Z *x, Z *y)
-__CPROVER_requires(ZFRESH3(gcd_helper) && X >= 0 && Y >= 0 && X < CTB && Y < CTB && inb(g_d, CTB))
+__CPROVER_requires(FRESH(gcd_helper, ret, sizeof(Z)) && FRESH(gcd_helper, x, sizeof(Z)) && FRESH(gcd_helper, y, sizeof(Z)))
+__CPROVER_requires(X >= 0 && Y >= 0 && X < CTB && Y < CTB && inb(g_d, CTB))
 __CPROVER_assigns(*ret)
-__CPROVER_ensures(IS_GCD(R, X, Y));
+__CPROVER_ensures(IS_GCD(R, X, Y))
+__CPROVER_ensures(IMP(LEM(LS_GCDH(X, Y, R, g_d)), GCD_GREATEST(R, X, Y)));
 void h_gcd_helper(void){ IN(Z, a); IN(Z, b); HGHOSTS; C c; Z r; _ZNK4ikos10congruenceINS_8z_numberEE10gcd_helperES1_S1_(&r, &c, &a, &b); REACH; }
+
+/* gcd(x, y) = gcd_helper(|x|, |y|) */
 //@check id=gcd2 fn=_ZNK4ikos10congruenceINS_8z_numberEE3gcdES1_S1_ props=C08 defs=ZM_SMALL=16,ZBITS=3 replace=_ZNK4ikos10congruenceINS_8z_numberEE10gcd_helperES1_S1_
 void _ZNK4ikos10congruenceINS_8z_numberEE3gcdES1_S1_(Z *ret, C *self, Z *x, Z *y)
-__CPROVER_requires(ZFRESH3(gcd2) && inb(X, CTB) && inb(Y, CTB) && inb(g_d, CTB))
+__CPROVER_requires(FRESH(gcd2, ret, sizeof(Z)) && FRESH(gcd2, x, sizeof(Z)) && FRESH(gcd2, y, sizeof(Z)))
+__CPROVER_requires(inb(X, CTB) && inb(Y, CTB) && inb(g_d, CTB))
 __CPROVER_assigns(*ret)
-__CPROVER_ensures(IS_GCD(R, X, Y));
-/* BOUNDED: the same contract with the real recursive gcd_helper in line, unwound (Euclid on values below 2^(2*ZBITS+2) = 2^8
- * makes at most 12 recursive calls) */
-//@check id=gcd2_unwound fn=_ZNK4ikos10congruenceINS_8z_numberEE3gcdES1_S1_ tag=gcd2 harness=h_gcd2 props=C08 defs=ZM_SMALL=16,ZBITS=3 unwind=16
+__CPROVER_ensures(IS_GCD(R, X, Y))
+__CPROVER_ensures(GCD_GREATEST(R, X, Y));
 void h_gcd2(void){ IN(Z, a); IN(Z, b); HGHOSTS; C c; Z r; _ZNK4ikos10congruenceINS_8z_numberEE3gcdES1_S1_(&r, &c, &a, &b); REACH; }
-#define W zraw(*z)
+/* BOUNDED: the same contract with the real recursive gcd_helper in line (Euclid on values below 2^4 makes at most 6
+ * recursive calls) */
+//@check id=gcd2_unwound fn=_ZNK4ikos10congruenceINS_8z_numberEE3gcdES1_S1_ tag=gcd2 harness=h_gcd2 props=C08 defs=ZM_SMALL=16,ZBITS=3,CTBITS=4 unwind=8
 //@check id=gcd3 fn=_ZNK4ikos10congruenceINS_8z_numberEE3gcdES1_S1_S1_ props=C08 defs=ZM_SMALL=16,ZBITS=3 replace=_ZNK4ikos10congruenceINS_8z_numberEE3gcdES1_S1_
 void _ZNK4ikos10congruenceINS_8z_numberEE3gcdES1_S1_S1_(Z *ret, C *self, Z *x, Z *y, Z *z)
-__CPROVER_requires(ZFRESH3(gcd3) && FRESH(gcd3, z, sizeof(Z)) && inb(X, CTB) && inb(Y, CTB) && inb(W, CTB) && inb(g_d, CTB))
+__CPROVER_requires(FRESH(gcd3, ret, sizeof(Z)) && FRESH(gcd3, x, sizeof(Z)) && FRESH(gcd3, y, sizeof(Z)) && FRESH(gcd3, z, sizeof(Z)))
+__CPROVER_requires(inb(X, CTB) && inb(Y, CTB) && inb(W, CTB) && inb(g_d, CTB))
 __CPROVER_assigns(*ret)
 __CPROVER_ensures(R >= 0 && dvd(R, X) && dvd(R, Y) && dvd(R, W) && ((R == 0) == (X == 0 && Y == 0 && W == 0)))
-__CPROVER_ensures((X != 0 ==> R <= iabs(X)) && (Y != 0 ==> R <= iabs(Y)) && (W != 0 ==> R <= iabs(W)))
-__CPROVER_ensures((dvd(g_d, X) && dvd(g_d, Y) && dvd(g_d, W)) ==> dvd(g_d, R));
+__CPROVER_ensures(IMP(X != 0, R <= iabs(X)) && IMP(Y != 0, R <= iabs(Y)) && IMP(W != 0, R <= iabs(W)))
+__CPROVER_ensures(IMP(dvd(g_d, X) && dvd(g_d, Y) && dvd(g_d, W), dvd(g_d, R)));
 void h_gcd3(void){ IN(Z, a); IN(Z, b); IN(Z, c); HGHOSTS; C s; Z r; _ZNK4ikos10congruenceINS_8z_numberEE3gcdES1_S1_S1_(&r, &s, &a, &b, &c); REACH; }
 /* lcm(x, y) = |x * y| / gcd(x, y) for x, y != 0 (the only use): a positive common multiple that divides every common
- * multiple g_d */
-/* BOUNDED: the real gcd / gcd_helper in line ("least" needs "greatest" at another point than g_d); Euclid on values below
- * 2^ZBITS makes fewer than 2*ZBITS+2 recursive calls */
-//@check id=lcm fn=_ZNK4ikos10congruenceINS_8z_numberEE3lcmES1_S1_ props=C08 defs=ZM_SMALL=16,ZBITS=3 unwind=16
+ * multiple g_d.  BOUNDED: the real gcd / gcd_helper in line ("least" needs "greatest" at another point than g_d). */
+//@check id=lcm fn=_ZNK4ikos10congruenceINS_8z_numberEE3lcmES1_S1_ props=C08 defs=ZM_SMALL=16,ZBITS=3 unwind=8
 void _ZNK4ikos10congruenceINS_8z_numberEE3lcmES1_S1_(Z *ret, C *self, Z *x, Z *y)
-__CPROVER_requires(ZFRESH3(lcm) && inb(X, ZB) && inb(Y, ZB) && X != 0 && Y != 0 && inb(g_d, CTB))
+__CPROVER_requires(FRESH(lcm, ret, sizeof(Z)) && FRESH(lcm, x, sizeof(Z)) && FRESH(lcm, y, sizeof(Z)))
+__CPROVER_requires(inb(X, ZB) && inb(Y, ZB) && X != 0 && Y != 0 && inb(g_d, ZB2))
 __CPROVER_assigns(*ret)
 __CPROVER_ensures(R > 0 && R < ZB2 && dvd(X, R) && dvd(Y, R) && R >= iabs(X) && R >= iabs(Y))
-__CPROVER_ensures((dvd(X, g_d) && dvd(Y, g_d)) ==> dvd(R, g_d));
+__CPROVER_ensures(IMP(dvd(X, g_d) && dvd(Y, g_d), dvd(R, g_d)));
 void h_lcm(void){ IN(Z, a); IN(Z, b); HGHOSTS; C s; Z r; _ZNK4ikos10congruenceINS_8z_numberEE3lcmES1_S1_(&r, &s, &a, &b); REACH; }
 #define ZUN(tag, fn, EXPR) \
 void fn(Z *ret, C *self, Z *x) \
@@ -83,7 +91,7 @@ __CPROVER_ensures(R == (EXPR)); \
 void h_##tag(void){ IN(Z, a); C s; Z r; fn(&r, &s, &a); REACH; }
 #define ZBI(tag, fn, EXPR) \
 void fn(Z *ret, C *self, Z *x, Z *y) \
-__CPROVER_requires(ZFRESH3(tag) && inb(X, CTB) && inb(Y, CTB)) \
+__CPROVER_requires(FRESH(tag, ret, sizeof(Z)) && FRESH(tag, x, sizeof(Z)) && FRESH(tag, y, sizeof(Z)) && inb(X, CTB) && inb(Y, CTB)) \
 __CPROVER_assigns(*ret) \
 __CPROVER_ensures(R == (EXPR)); \
 void h_##tag(void){ IN(Z, a); IN(Z, b); C s; Z r; fn(&r, &s, &a, &b); REACH; }
@@ -97,23 +105,26 @@ ZBI(max, _ZNK4ikos10congruenceINS_8z_numberEE3maxES1_S1_, imax(X, Y))
 /* ================================================================ constructors, normal form */
 /* congruence(Number a, Number b) [private]: the value aZ+b in normal form.  a may have either sign
  * (operator/ passes m_a / o.m_b). */
-//@check id=ctor_ab fn=_ZN4ikos10congruenceINS_8z_numberEEC2ES1_S1_ props=C08,C04 defs=ZM_SMALL=16,ZBITS=3
+//@check id=ctor_ab fn=_ZN4ikos10congruenceINS_8z_numberEEC2ES1_S1_ props=C08,C04
+//@check id=ctor_ab_b fn=_ZN4ikos10congruenceINS_8z_numberEEC2ES1_S1_ tag=ctor_ab harness=h_ctor_ab props=C08,C04 defs=ZM_SMALL=16,ZBITS=3 tier=thorough
 void _ZN4ikos10congruenceINS_8z_numberEEC2ES1_S1_(C *self, Z *a, Z *b)
 __CPROVER_requires(FRESH(ctor_ab, self, sizeof(C)) && FRESH(ctor_ab, a, sizeof(Z)) && FRESH(ctor_ab, b, sizeof(Z)))
 __CPROVER_requires(inb(zraw(*a), CTB) && inb(zraw(*b), CTB) && TOP(ctor_ab, GRANGE))
 __CPROVER_assigns(*self)
-__CPROVER_ensures(c_okz(*self, CTB))
-__CPROVER_ensures(c_is(*self, zraw(*a), zraw(*b)))
-__CPROVER_ensures(TOP(ctor_ab, c_has(*self, g_x) == ab_has(zraw(*a), zraw(*b), g_x)));
-void h_ctor_ab(void){ IN(Z, a); IN(Z, b); HGHOSTS; C r; _ZN4ikos10congruenceINS_8z_numberEEC2ES1_S1_(&r, &a, &b); REACH; }
+__CPROVER_ensures(POST_ctor_ab(*self, zraw(*a), zraw(*b)))
+__CPROVER_ensures(TOP(ctor_ab, SOUND_ctor_ab(*self, zraw(*a), zraw(*b))));
+void h_ctor_ab(void){ IN(Z, a); IN(Z, b); HGHOSTS; C r; _ZN4ikos10congruenceINS_8z_numberEEC2ES1_S1_(&r, &a, &b);
+  SATGUARD(LEM(LS_CTOR(zraw(a), zraw(b), c_b(r), g_x)) && zraw(a) < -1 && zraw(b) < -1 && c_has(r, g_x)); REACH; }
 
-/* normalize() [private]: brings the remainder into [0, a) and leaves the described set unchanged */
-//@check id=normalize fn=_ZN4ikos10congruenceINS_8z_numberEE9normalizeEv props=C08,C04 defs=ZM_SMALL=16,ZBITS=3
+/* normalize() [private]: brings the modulus to |a| and the remainder into [0, |a|) and leaves the described set unchanged */
+//@check id=normalize fn=_ZN4ikos10congruenceINS_8z_numberEE9normalizeEv props=C08,C04
+//@check id=normalize_b fn=_ZN4ikos10congruenceINS_8z_numberEE9normalizeEv tag=normalize harness=h_normalize props=C08,C04 defs=ZM_SMALL=16,ZBITS=3 tier=thorough
 void _ZN4ikos10congruenceINS_8z_numberEE9normalizeEv(C *self)
-__CPROVER_requires(FRESH(normalize, self, sizeof(C)) && self->f0 <= 1 && inb(A(self), CTB) && inb(Bq(self), CTB) && TOP(normalize, GRANGE))
+__CPROVER_requires(FRESH(normalize, self, sizeof(C)) && self->f0 <= 1 && inb(c_a(*self), CTB) && inb(c_b(*self), CTB) && TOP(normalize, GRANGE))
 __CPROVER_assigns(*self)
 __CPROVER_ensures(c_okz(*self, CTB) && self->f0 == __CPROVER_old(self->f0))
-__CPROVER_ensures(TOP(normalize, ab_has(c_a(*self), c_b(*self), g_x) == ab_has(OLDZ(self->f1), OLDZ(self->f2), g_x)));
+__CPROVER_ensures(c_a(*self) == iabs(OLDZ(self->f1)) && c_b(*self) == (OLDZ(self->f1) == 0 ? OLDZ(self->f2) : fmod_(OLDZ(self->f2), OLDZ(self->f1))))
+__CPROVER_ensures(TOP(normalize, IMP(LEM(LS_CTOR(OLDZ(self->f1), OLDZ(self->f2), c_b(*self), g_x)), ab_has(c_a(*self), c_b(*self), g_x) == ab_has(OLDZ(self->f1), OLDZ(self->f2), g_x))));
 void h_normalize(void){ IN(C, a); HGHOSTS; _ZN4ikos10congruenceINS_8z_numberEE9normalizeEv(&a); REACH; }
 
 /* congruence(): top */
@@ -126,9 +137,9 @@ void h_ctor_default(void){ C r; _ZN4ikos10congruenceINS_8z_numberEEC2Ev(&r); REA
 /* congruence(Number n): the singleton {n} */
 //@check id=ctor_n fn=_ZN4ikos10congruenceINS_8z_numberEEC2ES1_ props=C08,C04
 void _ZN4ikos10congruenceINS_8z_numberEEC2ES1_(C *self, Z *n)
-__CPROVER_requires(FRESH(ctor_n, self, sizeof(C)) && FRESH(ctor_n, n, sizeof(Z)) && inb(zraw(*n), ZB2) && TOP(ctor_n, GRANGE))
+__CPROVER_requires(FRESH(ctor_n, self, sizeof(C)) && FRESH(ctor_n, n, sizeof(Z)) && inb(zraw(*n), ZLIM) && TOP(ctor_n, GRANGE))
 __CPROVER_assigns(*self)
-__CPROVER_ensures(c_okz(*self, ZB2) && c_single(*self) && c_b(*self) == zraw(*n))
+__CPROVER_ensures(c_okz(*self, ZLIM) && c_single(*self) && c_b(*self) == zraw(*n))
 __CPROVER_ensures(TOP(ctor_n, c_has(*self, g_x) == (g_x == zraw(*n))));
 void h_ctor_n(void){ IN(Z, n); HGHOSTS; C r; _ZN4ikos10congruenceINS_8z_numberEEC2ES1_(&r, &n); REACH; }
 /* congruence(int n) [private]: the singleton {n} */
@@ -236,12 +247,12 @@ void h_ne(void){ IN(C, a); IN(C, b); _ZNK4ikos10congruenceINS_8z_numberEEneERKS2
 #else
 #define LEQ_EXACT 1
 #endif
-//@check id=leq_exact fn=_ZNK4ikos10congruenceINS_8z_numberEEleERKS2_ tag=leq harness=h_leq props=C04 defs=ZM_SMALL=16,ZBITS=3
 //@check id=leq fn=_ZNK4ikos10congruenceINS_8z_numberEEleERKS2_ props=C08,C04 defs=ZM_SMALL=16,ZBITS=3
+//@check id=leq_exact fn=_ZNK4ikos10congruenceINS_8z_numberEEleERKS2_ tag=leq harness=h_leq props=C04 defs=ZM_SMALL=16,ZBITS=3
 unsigned char _ZNK4ikos10congruenceINS_8z_numberEEleERKS2_(C *self, C *x)
 __CPROVER_requires(CFRESH2(leq) && c_ok(*self) && c_ok(*x) && TOP(leq, GRANGE))
 __CPROVER_assigns()
-__CPROVER_ensures(TOP(leq, (RV && c_has(*self, g_x)) ==> c_has(*x, g_x)))
+__CPROVER_ensures(TOP(leq, SOUND_leq(RV, *self, *x)))
 __CPROVER_ensures(c_bot(*self) ==> RV)
 __CPROVER_ensures(c_top(*x) ==> RV)
 __CPROVER_ensures(c_eq(*self, *x) ==> RV)
@@ -252,94 +263,74 @@ void h_leq(void){ IN(C, a); IN(C, b); HGHOSTS; _ZNK4ikos10congruenceINS_8z_numbe
 void h_leq_refl(void){ IN(C, a); HGHOSTS; unsigned char r = _ZNK4ikos10congruenceINS_8z_numberEEleERKS2_(&a, &a); __CPROVER_assert(r, "x <= x"); REACH; }
 
 /* ================================================================ binary operations */
-#define CBIN(tag, fn, OKZ, EXTRA, SOUND) \
+#define CBINP(tag, op, fn, PRE) \
 void fn(C *ret, C *self, C *x) \
-__CPROVER_requires(FRESH(tag, ret, sizeof(C)) && CFRESH2(tag) && c_ok(*self) && c_ok(*x) && TOP(tag, GRANGE)) \
+__CPROVER_requires(FRESH(tag, ret, sizeof(C)) && CFRESH2(tag) && c_ok(*self) && c_ok(*x) && (PRE) && TOP(tag, GRANGE)) \
 __CPROVER_assigns(*ret) \
-__CPROVER_ensures(c_okz(*ret, OKZ)) \
-__CPROVER_ensures(EXTRA) \
-__CPROVER_ensures(TOP(tag, SOUND)); \
+__CPROVER_ensures(c_okz(*ret, OKZ_##op)) \
+__CPROVER_ensures(EXTRA_##op(*ret, *self, *x)) \
+__CPROVER_ensures(TOP(tag, SOUND_##op(*ret, *self, *x))); \
 void h_##tag(void){ IN(C, a); IN(C, b); HGHOSTS; C r; fn(&r, &a, &b); REACH; }
-#define ANYBOT (c_bot(*self) || c_bot(*x))
-#define IN2 (c_has(*self, g_x) && c_has(*x, g_y))
+#define CBIN(tag, fn) CBINP(tag, tag, fn, 1)
 
 /* join: describes at least both operands */
-//@check id=join fn=_ZNK4ikos10congruenceINS_8z_numberEEorERKS2_ props=C08,C04 defs=ZM_SMALL=16,ZBITS=3 replace=_ZN4ikos10congruenceINS_8z_numberEEC2ES1_S1_,_ZNK4ikos10congruenceINS_8z_numberEE3gcdES1_S1_,_ZNK4ikos10congruenceINS_8z_numberEE3gcdES1_S1_S1_,_ZNK4ikos10congruenceINS_8z_numberEE3lcmES1_S1_
-CBIN(join, _ZNK4ikos10congruenceINS_8z_numberEEorERKS2_, 2 * ZB, 1,
-     (c_has(*self, g_x) || c_has(*x, g_x)) ==> c_has(*ret, g_x))
-/* meet: describes at least the integers common to both operands; and (precision) nothing else */
-//@check id=meet fn=_ZNK4ikos10congruenceINS_8z_numberEEanERKS2_ props=C08,C04 defs=ZM_SMALL=16,ZBITS=3 replace=_ZN4ikos10congruenceINS_8z_numberEEC2ES1_S1_,_ZNK4ikos10congruenceINS_8z_numberEE3gcdES1_S1_,_ZNK4ikos10congruenceINS_8z_numberEE3gcdES1_S1_S1_,_ZNK4ikos10congruenceINS_8z_numberEE3lcmES1_S1_
-CBIN(meet, _ZNK4ikos10congruenceINS_8z_numberEEanERKS2_, ZB2, 1,
-     (c_has(*self, g_x) && c_has(*x, g_x)) ==> c_has(*ret, g_x))
-/* widening (= join: the lattice has no infinite ascending chain).  Upper bound of both arguments; stationary when the
- * argument is included; otherwise the result is strictly higher in the well-founded order
- *   bottom  <  singletons (a = 0)  <  a > 0 ordered by "proper divisor of",
- * i.e. self was bottom, or self was a singleton and the result is not, or the modulus became a proper divisor
- * (1 <= ret.a < self.a and ret.a | self.a): every chain of widenings is stationary after finitely many steps. */
-#define WIDEN_RANK (c_eq(*ret, *self) || c_bot(*self) || (!c_bot(*ret) && (c_a(*self) == 0 ? c_a(*ret) > 0 : (c_a(*ret) >= 1 && c_a(*ret) < c_a(*self) && dvd(c_a(*ret), c_a(*self))))))
-//@check id=widen fn=_ZNK4ikos10congruenceINS_8z_numberEEooERKS2_ props=C08,C05 defs=ZM_SMALL=16,ZBITS=3 replace=_ZN4ikos10congruenceINS_8z_numberEEC2ES1_S1_,_ZNK4ikos10congruenceINS_8z_numberEE3gcdES1_S1_,_ZNK4ikos10congruenceINS_8z_numberEE3gcdES1_S1_S1_,_ZNK4ikos10congruenceINS_8z_numberEE3lcmES1_S1_
-CBIN(widen, _ZNK4ikos10congruenceINS_8z_numberEEooERKS2_, 2 * ZB,
-     (c_leq(*x, *self) ==> c_eq(*ret, *self)) && WIDEN_RANK,
-     (c_has(*self, g_x) || c_has(*x, g_x)) ==> c_has(*ret, g_x))
-/* narrowing of a decreasing pair still describes every state of its second argument (and stays below the first) */
+//@check id=join fn=_ZNK4ikos10congruenceINS_8z_numberEEorERKS2_ props=C08,C04 defs=ZM_SMALL=16,ZBITS=3 replace=_ZN4ikos10congruenceINS_8z_numberEEC2ES1_S1_,_ZNK4ikos10congruenceINS_8z_numberEE3gcdES1_S1_S1_
+CBIN(join, _ZNK4ikos10congruenceINS_8z_numberEEorERKS2_)
+/* meet: describes at least the integers common to both operands.  The loop (extended Euclid, after repair) runs fewer
+ * than 2*ZBITS+2 times on moduli below 2^ZBITS. */
+//@check id=meet fn=_ZNK4ikos10congruenceINS_8z_numberEEanERKS2_ props=C08,C04 defs=ZM_SMALL=16,ZBITS=3 unwind=8 replace=_ZN4ikos10congruenceINS_8z_numberEEC2ES1_S1_
+CBIN(meet, _ZNK4ikos10congruenceINS_8z_numberEEanERKS2_)
+//@check id=widen fn=_ZNK4ikos10congruenceINS_8z_numberEEooERKS2_ props=C08,C05 defs=ZM_SMALL=16,ZBITS=3 replace=_ZN4ikos10congruenceINS_8z_numberEEC2ES1_S1_,_ZNK4ikos10congruenceINS_8z_numberEE3gcdES1_S1_S1_
+CBIN(widen, _ZNK4ikos10congruenceINS_8z_numberEEooERKS2_)
 //@check id=narrow fn=_ZNK4ikos10congruenceINS_8z_numberEEaaERKS2_ props=C08,C05 defs=ZM_SMALL=16,ZBITS=3
-CBIN(narrow, _ZNK4ikos10congruenceINS_8z_numberEEaaERKS2_, ZB,
-     c_leq(*x, *self) ==> (c_leq(*ret, *self) && c_leq(*x, *ret)),
-     (c_leq(*x, *self) && c_has(*x, g_x)) ==> c_has(*ret, g_x))
+CBIN(narrow, _ZNK4ikos10congruenceINS_8z_numberEEaaERKS2_)
 
 /* ---------------------------------------------------------------- arithmetic */
-//@check id=add fn=_ZNK4ikos10congruenceINS_8z_numberEEplERKS2_ props=C08 defs=ZM_SMALL=16,ZBITS=3 replace=_ZN4ikos10congruenceINS_8z_numberEEC2ES1_S1_,_ZNK4ikos10congruenceINS_8z_numberEE3gcdES1_S1_,_ZNK4ikos10congruenceINS_8z_numberEE3gcdES1_S1_S1_,_ZNK4ikos10congruenceINS_8z_numberEE3lcmES1_S1_
-CBIN(add, _ZNK4ikos10congruenceINS_8z_numberEEplERKS2_, ZB2, ANYBOT ==> c_bot(*ret), IN2 ==> c_has(*ret, g_x + g_y))
-//@check id=sub fn=_ZNK4ikos10congruenceINS_8z_numberEEmiERKS2_ props=C08 defs=ZM_SMALL=16,ZBITS=3 replace=_ZN4ikos10congruenceINS_8z_numberEEC2ES1_S1_,_ZNK4ikos10congruenceINS_8z_numberEE3gcdES1_S1_,_ZNK4ikos10congruenceINS_8z_numberEE3gcdES1_S1_S1_,_ZNK4ikos10congruenceINS_8z_numberEE3lcmES1_S1_
-CBIN(sub, _ZNK4ikos10congruenceINS_8z_numberEEmiERKS2_, ZB2, ANYBOT ==> c_bot(*ret), IN2 ==> c_has(*ret, g_x - g_y))
-//@check id=mul fn=_ZNK4ikos10congruenceINS_8z_numberEEmlERKS2_ props=C08 defs=ZM_SMALL=16,ZBITS=3 replace=_ZN4ikos10congruenceINS_8z_numberEEC2ES1_S1_,_ZNK4ikos10congruenceINS_8z_numberEE3gcdES1_S1_,_ZNK4ikos10congruenceINS_8z_numberEE3gcdES1_S1_S1_,_ZNK4ikos10congruenceINS_8z_numberEE3lcmES1_S1_
-CBIN(mul, _ZNK4ikos10congruenceINS_8z_numberEEmlERKS2_, ZB2, ANYBOT ==> c_bot(*ret), IN2 ==> c_has(*ret, S_mul(g_x, g_y)))
-/* signed (truncating) division and remainder; division by zero has no result */
-//@check id=div fn=_ZNK4ikos10congruenceINS_8z_numberEEdvERKS2_ props=C08 defs=ZM_SMALL=16,ZBITS=3 replace=_ZN4ikos10congruenceINS_8z_numberEEC2ES1_S1_,_ZNK4ikos10congruenceINS_8z_numberEE3gcdES1_S1_,_ZNK4ikos10congruenceINS_8z_numberEE3gcdES1_S1_S1_,_ZNK4ikos10congruenceINS_8z_numberEE3lcmES1_S1_
-CBIN(div, _ZNK4ikos10congruenceINS_8z_numberEEdvERKS2_, ZB2, ANYBOT ==> c_bot(*ret), (IN2 && g_y != 0) ==> c_has(*ret, S_div(g_x, g_y)))
-//@check id=rem fn=_ZNK4ikos10congruenceINS_8z_numberEErmERKS2_ props=C08 defs=ZM_SMALL=16,ZBITS=3 replace=_ZN4ikos10congruenceINS_8z_numberEEC2ES1_S1_,_ZNK4ikos10congruenceINS_8z_numberEE3gcdES1_S1_,_ZNK4ikos10congruenceINS_8z_numberEE3gcdES1_S1_S1_,_ZNK4ikos10congruenceINS_8z_numberEE3lcmES1_S1_
-CBIN(rem, _ZNK4ikos10congruenceINS_8z_numberEErmERKS2_, ZB2, ANYBOT ==> c_bot(*ret), (IN2 && g_y != 0) ==> c_has(*ret, S_rem(g_x, g_y)))
-//@check id=sdiv fn=_ZNK4ikos10congruenceINS_8z_numberEE4SDivERKS2_ props=C08 defs=ZM_SMALL=16,ZBITS=3 replace=_ZN4ikos10congruenceINS_8z_numberEEC2ES1_S1_,_ZNK4ikos10congruenceINS_8z_numberEE3gcdES1_S1_,_ZNK4ikos10congruenceINS_8z_numberEE3gcdES1_S1_S1_,_ZNK4ikos10congruenceINS_8z_numberEE3lcmES1_S1_
-CBIN(sdiv, _ZNK4ikos10congruenceINS_8z_numberEE4SDivERKS2_, ZB2, ANYBOT ==> c_bot(*ret), (IN2 && g_y != 0) ==> c_has(*ret, S_div(g_x, g_y)))
-//@check id=srem fn=_ZNK4ikos10congruenceINS_8z_numberEE4SRemERKS2_ props=C08 defs=ZM_SMALL=16,ZBITS=3 replace=_ZN4ikos10congruenceINS_8z_numberEEC2ES1_S1_,_ZNK4ikos10congruenceINS_8z_numberEE3gcdES1_S1_,_ZNK4ikos10congruenceINS_8z_numberEE3gcdES1_S1_S1_,_ZNK4ikos10congruenceINS_8z_numberEE3lcmES1_S1_
-CBIN(srem, _ZNK4ikos10congruenceINS_8z_numberEE4SRemERKS2_, ZB2, ANYBOT ==> c_bot(*ret), (IN2 && g_y != 0) ==> c_has(*ret, S_rem(g_x, g_y)))
-/* unsigned division / remainder depend on a bit width the class does not know: any integer must be described */
+//@check id=add fn=_ZNK4ikos10congruenceINS_8z_numberEEplERKS2_ props=C08 replace=_ZN4ikos10congruenceINS_8z_numberEEC2ES1_S1_,_ZNK4ikos10congruenceINS_8z_numberEE3gcdES1_S1_
+//@check id=add_b fn=_ZNK4ikos10congruenceINS_8z_numberEEplERKS2_ tag=add harness=h_add props=C08 defs=ZM_SMALL=16,ZBITS=3 tier=thorough replace=_ZN4ikos10congruenceINS_8z_numberEEC2ES1_S1_,_ZNK4ikos10congruenceINS_8z_numberEE3gcdES1_S1_
+CBIN(add, _ZNK4ikos10congruenceINS_8z_numberEEplERKS2_)
+//@check id=sub fn=_ZNK4ikos10congruenceINS_8z_numberEEmiERKS2_ props=C08 replace=_ZN4ikos10congruenceINS_8z_numberEEC2ES1_S1_,_ZNK4ikos10congruenceINS_8z_numberEE3gcdES1_S1_
+//@check id=sub_b fn=_ZNK4ikos10congruenceINS_8z_numberEEmiERKS2_ tag=sub harness=h_sub props=C08 defs=ZM_SMALL=16,ZBITS=3 tier=thorough replace=_ZN4ikos10congruenceINS_8z_numberEEC2ES1_S1_,_ZNK4ikos10congruenceINS_8z_numberEE3gcdES1_S1_
+CBIN(sub, _ZNK4ikos10congruenceINS_8z_numberEEmiERKS2_)
+//@check id=mul fn=_ZNK4ikos10congruenceINS_8z_numberEEmlERKS2_ props=C08 defs=ZM_SMALL=16,ZBITS=3 replace=_ZN4ikos10congruenceINS_8z_numberEEC2ES1_S1_,_ZNK4ikos10congruenceINS_8z_numberEE3gcdES1_S1_S1_
+CBIN(mul, _ZNK4ikos10congruenceINS_8z_numberEEmlERKS2_)
+//@check id=div fn=_ZNK4ikos10congruenceINS_8z_numberEEdvERKS2_ props=C08 defs=ZM_SMALL=16,ZBITS=3 replace=_ZN4ikos10congruenceINS_8z_numberEEC2ES1_S1_
+CBIN(div, _ZNK4ikos10congruenceINS_8z_numberEEdvERKS2_)
+//@check id=rem fn=_ZNK4ikos10congruenceINS_8z_numberEErmERKS2_ props=C08 defs=ZM_SMALL=16,ZBITS=3 replace=_ZN4ikos10congruenceINS_8z_numberEEC2ES1_S1_,_ZNK4ikos10congruenceINS_8z_numberEE3gcdES1_S1_,_ZNK4ikos10congruenceINS_8z_numberEE3gcdES1_S1_S1_
+CBIN(rem, _ZNK4ikos10congruenceINS_8z_numberEErmERKS2_)
+//@check id=sdiv fn=_ZNK4ikos10congruenceINS_8z_numberEE4SDivERKS2_ props=C08 defs=ZM_SMALL=16,ZBITS=3 replace=_ZN4ikos10congruenceINS_8z_numberEEC2ES1_S1_
+CBINP(sdiv, div, _ZNK4ikos10congruenceINS_8z_numberEE4SDivERKS2_, 1)
+//@check id=srem fn=_ZNK4ikos10congruenceINS_8z_numberEE4SRemERKS2_ props=C08 defs=ZM_SMALL=16,ZBITS=3 replace=_ZN4ikos10congruenceINS_8z_numberEEC2ES1_S1_,_ZNK4ikos10congruenceINS_8z_numberEE3gcdES1_S1_,_ZNK4ikos10congruenceINS_8z_numberEE3gcdES1_S1_S1_
+CBINP(srem, rem, _ZNK4ikos10congruenceINS_8z_numberEE4SRemERKS2_, 1)
 //@check id=udiv fn=_ZNK4ikos10congruenceINS_8z_numberEE4UDivERKS2_ props=C08
-CBIN(udiv, _ZNK4ikos10congruenceINS_8z_numberEE4UDivERKS2_, ZB, 1, c_has(*ret, g_x))
+CBIN(udiv, _ZNK4ikos10congruenceINS_8z_numberEE4UDivERKS2_)
 //@check id=urem fn=_ZNK4ikos10congruenceINS_8z_numberEE4URemERKS2_ props=C08
-CBIN(urem, _ZNK4ikos10congruenceINS_8z_numberEE4URemERKS2_, ZB, 1, c_has(*ret, g_x))
+CBIN(urem, _ZNK4ikos10congruenceINS_8z_numberEE4URemERKS2_)
 
-//@check id=neg fn=_ZNK4ikos10congruenceINS_8z_numberEEngEv props=C08 defs=ZM_SMALL=16,ZBITS=3 replace=_ZN4ikos10congruenceINS_8z_numberEEC2ES1_S1_,_ZNK4ikos10congruenceINS_8z_numberEE3gcdES1_S1_,_ZNK4ikos10congruenceINS_8z_numberEE3gcdES1_S1_S1_,_ZNK4ikos10congruenceINS_8z_numberEE3lcmES1_S1_
+//@check id=neg fn=_ZNK4ikos10congruenceINS_8z_numberEEngEv props=C08 defs=ZM_SMALL=16,ZBITS=3 replace=_ZN4ikos10congruenceINS_8z_numberEEC2ES1_S1_
 void _ZNK4ikos10congruenceINS_8z_numberEEngEv(C *ret, C *self)
 __CPROVER_requires(FRESH(neg, ret, sizeof(C)) && FRESH(neg, self, sizeof(C)) && c_ok(*self) && TOP(neg, GRANGE))
 __CPROVER_assigns(*ret)
-__CPROVER_ensures(c_okz(*ret, ZB2))
-__CPROVER_ensures(c_bot(*self) ==> c_bot(*ret))
-__CPROVER_ensures(TOP(neg, c_has(*self, g_x) ==> c_has(*ret, -g_x)));
+__CPROVER_ensures(POST_neg(*ret, *self))
+__CPROVER_ensures(TOP(neg, SOUND_neg(*ret, *self)));
 void h_neg(void){ IN(C, a); HGHOSTS; C r; _ZNK4ikos10congruenceINS_8z_numberEEngEv(&r, &a); REACH; }
 
-/* ---------------------------------------------------------------- bitwise (infinite-precision two's complement) */
+/* ---------------------------------------------------------------- bitwise: results are singletons, an operand or top (no lemma) */
 //@check id=and fn=_ZNK4ikos10congruenceINS_8z_numberEE3AndERKS2_ props=C08
-CBIN(and, _ZNK4ikos10congruenceINS_8z_numberEE3AndERKS2_, 2 * ZB, ANYBOT ==> c_bot(*ret), IN2 ==> c_has(*ret, g_x & g_y))
+CBIN(and, _ZNK4ikos10congruenceINS_8z_numberEE3AndERKS2_)
 //@check id=or fn=_ZNK4ikos10congruenceINS_8z_numberEE2OrERKS2_ props=C08
-CBIN(or, _ZNK4ikos10congruenceINS_8z_numberEE2OrERKS2_, 2 * ZB, ANYBOT ==> c_bot(*ret), IN2 ==> c_has(*ret, g_x | g_y))
+CBIN(or, _ZNK4ikos10congruenceINS_8z_numberEE2OrERKS2_)
 //@check id=xor fn=_ZNK4ikos10congruenceINS_8z_numberEE3XorERKS2_ props=C08
-CBIN(xor, _ZNK4ikos10congruenceINS_8z_numberEE3XorERKS2_, 2 * ZB, ANYBOT ==> c_bot(*ret), IN2 ==> c_has(*ret, g_x ^ g_y))
+CBIN(xor, _ZNK4ikos10congruenceINS_8z_numberEE3XorERKS2_)
 
 /* ---------------------------------------------------------------- shifts */
-/* x << k = x * 2^k for k >= 0 (negative amounts have no result).  Model restriction: amounts and moduli of the
- * right operand below SHB so that 2^k stays inside the modelled magnitudes. */
+/* Model restriction for Shl: amounts and moduli of the right operand below SHB so that 2^k stays inside the modelled
+ * magnitudes. */
 #ifndef SHB
 #define SHB 20
 #endif
 //@check id=shl fn=_ZNK4ikos10congruenceINS_8z_numberEE3ShlERKS2_ props=C08 defs=ZM_SMALL=32,ZBITS=3,SHB=16,CTBITS=26 replace=_ZN4ikos10congruenceINS_8z_numberEEC2ES1_S1_,_ZNK4ikos10congruenceINS_8z_numberEE3gcdES1_S1_
-void _ZNK4ikos10congruenceINS_8z_numberEE3ShlERKS2_(C *ret, C *self, C *x)
-__CPROVER_requires(FRESH(shl, ret, sizeof(C)) && CFRESH2(shl) && c_ok(*self) && c_ok(*x) && c_a(*x) < SHB && c_b(*x) < SHB && TOP(shl, GRANGE && g_y < SHB))
-__CPROVER_assigns(*ret)
-__CPROVER_ensures(c_okz(*ret, ZLIM))
-__CPROVER_ensures(ANYBOT ==> c_bot(*ret))
-__CPROVER_ensures(TOP(shl, (IN2 && g_y >= 0) ==> c_has(*ret, shl_(g_x, g_y))));
-void h_shl(void){ IN(C, a); IN(C, b); HGHOSTS; C r; _ZNK4ikos10congruenceINS_8z_numberEE3ShlERKS2_(&r, &a, &b); REACH; }
+CBINP(shl, shl, _ZNK4ikos10congruenceINS_8z_numberEE3ShlERKS2_, c_a(*x) < SHB && c_b(*x) < SHB && TOP(shl, g_y < SHB))
 
 /* AShr / LShr delegate to interval<z_number>::AShr / LShr on singletons.  The four interval functions they call are
  * defined in lib/interval.cpp, not in this unit: their contracts below are ASSUMED here (listed in unit.json) and are
@@ -349,26 +340,26 @@ static inline bool iv_fin(IV i){ return i.f0.f0 == 0 && i.f1.f0 == 0; }
 static inline bool iv_single(IV i, i128 n){ return iv_fin(i) && zraw(i.f0.f1) == n && zraw(i.f1.f1) == n; }
 static inline bool iv_flags(IV i){ return i.f0.f0 <= 1 && i.f1.f0 <= 1 && inb(zraw(i.f0.f1), ZLIM) && inb(zraw(i.f1.f1), ZLIM); }
 static inline bool iv_has(IV i, i128 v){ return (i.f0.f0 ? zraw(i.f0.f1) < 0 : zraw(i.f0.f1) <= v) && (i.f1.f0 ? zraw(i.f1.f1) > 0 : v <= zraw(i.f1.f1)); }
+#define IV_N zraw(self->f0.f1)
+#define IV_K zraw(x->f0.f1)
+#define IV_SINGLES (iv_single(*self, IV_N) && iv_single(*x, IV_K))
 void _ZN4ikos8intervalINS_8z_numberEEC1ES1_(IV *self, Z *n)
-__CPROVER_requires(FRESH(iv_ctor, self, sizeof(IV)) && FRESH(iv_ctor, n, sizeof(Z)))
+__CPROVER_requires(FRESH(iv_ctor, self, sizeof(IV)) && FRESH(iv_ctor, n, sizeof(Z)) && inb(zraw(*n), ZLIM))
 __CPROVER_assigns(*self)
-__CPROVER_ensures(iv_single(*self, zraw(*n)));
+__CPROVER_ensures(iv_flags(*self) && iv_single(*self, zraw(*n)));
 void _ZNK4ikos8intervalINS_8z_numberEE4AShrERKS2_(IV *ret, IV *self, IV *x)
 __CPROVER_requires(FRESH(iv_ashr, ret, sizeof(IV)) && FRESH(iv_ashr, self, sizeof(IV)) && FRESH(iv_ashr, x, sizeof(IV)) && iv_flags(*self) && iv_flags(*x))
 __CPROVER_assigns(*ret)
-__CPROVER_ensures(iv_flags(*ret) && ((iv_fin(*self) && iv_fin(*x) && iv_single(*self, zraw(self->f0.f1)) && iv_single(*x, zraw(x->f0.f1)) && zraw(x->f0.f1) >= 0) ==> iv_has(*ret, fshr(zraw(self->f0.f1), zraw(x->f0.f1)))));
+__CPROVER_ensures(iv_flags(*ret) && IMP(IV_SINGLES && IV_K >= 0, iv_has(*ret, fshr(IV_N, IV_K))));
 void _ZNK4ikos8intervalINS_8z_numberEE4LShrERKS2_(IV *ret, IV *self, IV *x)
 __CPROVER_requires(FRESH(iv_lshr, ret, sizeof(IV)) && FRESH(iv_lshr, self, sizeof(IV)) && FRESH(iv_lshr, x, sizeof(IV)) && iv_flags(*self) && iv_flags(*x))
 __CPROVER_assigns(*ret)
-__CPROVER_ensures(iv_flags(*ret) && ((iv_fin(*self) && iv_fin(*x) && iv_single(*self, zraw(self->f0.f1)) && iv_single(*x, zraw(x->f0.f1)) && zraw(x->f0.f1) >= 0 && zraw(self->f0.f1) >= 0) ==> iv_has(*ret, fshr(zraw(self->f0.f1), zraw(x->f0.f1)))));
+__CPROVER_ensures(iv_flags(*ret) && IMP(IV_SINGLES && IV_K >= 0 && IV_N >= 0, iv_has(*ret, fshr(IV_N, IV_K))));
 void _ZNK4ikos8intervalINS_8z_numberEE9singletonEv(OPT *ret, IV *self)
 __CPROVER_requires(FRESH(iv_singleton, ret, sizeof(OPT)) && FRESH(iv_singleton, self, sizeof(IV)) && iv_flags(*self))
 __CPROVER_assigns(*ret)
 __CPROVER_ensures(opt_some(ret) == (iv_fin(*self) && zraw(self->f0.f1) == zraw(self->f1.f1)) && (opt_some(ret) ==> opt_val(ret) == zraw(self->f0.f1)));
-#define IVREPL _ZN4ikos8intervalINS_8z_numberEEC1ES1_,_ZNK4ikos8intervalINS_8z_numberEE4AShrERKS2_,_ZNK4ikos8intervalINS_8z_numberEE4LShrERKS2_,_ZNK4ikos8intervalINS_8z_numberEE9singletonEv
-/* x >> k rounds towards minus infinity, k >= 0 */
 //@check id=ashr fn=_ZNK4ikos10congruenceINS_8z_numberEE4AShrERKS2_ props=C08 replace=_ZN4ikos8intervalINS_8z_numberEEC1ES1_,_ZNK4ikos8intervalINS_8z_numberEE4AShrERKS2_,_ZNK4ikos8intervalINS_8z_numberEE9singletonEv
-CBIN(ashr, _ZNK4ikos10congruenceINS_8z_numberEE4AShrERKS2_, ZLIM, ANYBOT ==> c_bot(*ret), (IN2 && g_y >= 0) ==> c_has(*ret, fshr(g_x, g_y)))
-/* logical shift right: the class ignores the bit width, so only non-negative values have a width-independent result */
+CBIN(ashr, _ZNK4ikos10congruenceINS_8z_numberEE4AShrERKS2_)
 //@check id=lshr fn=_ZNK4ikos10congruenceINS_8z_numberEE4LShrERKS2_ props=C08 replace=_ZN4ikos8intervalINS_8z_numberEEC1ES1_,_ZNK4ikos8intervalINS_8z_numberEE4LShrERKS2_,_ZNK4ikos8intervalINS_8z_numberEE9singletonEv
-CBIN(lshr, _ZNK4ikos10congruenceINS_8z_numberEE4LShrERKS2_, ZLIM, ANYBOT ==> c_bot(*ret), (IN2 && g_y >= 0 && g_x >= 0) ==> c_has(*ret, fshr(g_x, g_y)))
+CBIN(lshr, _ZNK4ikos10congruenceINS_8z_numberEE4LShrERKS2_)
